@@ -182,9 +182,12 @@ func cmdScenario() int {
 				if v.Property == u.Property {
 					return true
 				}
-				for _, f := range v.Features {
-					if strings.HasPrefix(f, "stale:") {
-						return true
+				// (job-controller properties only: that is where stale caches corrupt the bookkeeping)
+				if v.Property >= "C08" && v.Property <= "C13" {
+					for _, f := range v.Features {
+						if strings.HasPrefix(f, "stale:") {
+							return true
+						}
 					}
 				}
 				return false
